@@ -909,15 +909,15 @@ def C19(tier):
         lp = "".join(sg(l[i], l[i + 1]) for i in range(3))
         rp = "".join(sg(r[i], r[i + 1]) for i in range(3))
         return rp == "-+-" and lp in ("-0+", "00+", "000", "-00")
-    k4 = [c for c in corridors(4, 4, [[10, 10, 10, 10]]) if zigzag4(c, False) or (not q and zigzag4(c, True))]
+    k4 = [c for c in corridors(4, 4, [[10, 10, 10, 10]]) if zigzag4(c, False)]
     if q:
         k4 = k4[::3]
     else:
-        k4 += [c for c in corridors(4, 5, [[10, 10, 10, 10]]) if zigzag4(c, False) and c not in k4][::3]
+        k4 += [c for c in corridors(4, 4, [[10, 10, 10, 10]]) if zigzag4(c, True) and c not in k4][::3]
     obs.append(dict(name="shortest-open-four-rectangles", pkg="internal/geom", func="Harness_C19", consts={"OPEN": 1, "PANICS": 1}, cubes=k4, enctimeout=300, qtimeout=120, loop=64,
                     bounds="corridors of FOUR rectangles on grid 0..4 (x10), equal heights, whose right wall narrows, widens and narrows again while the left wall is straight or steps "
                            "out and back in%s: the funnel's right chain holds three vertices when a left vertex arrives (its tangent point lies in the middle of the chain); "
-                           "symbolic start/end x as in shortest-open" % (" (quick: every 3rd of the 99)" if q else "; plus the mirror images and every 3rd such corridor on grid 0..5")))
+                           "symbolic start/end x as in shortest-open" % (" (quick: every 3rd of the 99)" if q else "; plus every 3rd mirror image")))
     corner = corridors(1, 1, [[20]])
     obs.append(dict(name="shortest-corner-class", pkg="internal/geom", func="Harness_C19", consts={"OPEN": 2, "PANICS": 1}, cubes=corner, enctimeout=60, qtimeout=60, loop=48,
                     replay_timeout=15, validate_cubes=0,
@@ -953,6 +953,8 @@ def C20(tier):
                             consts={"KIND": kind, "SLN": 0, "SLD": 1, "SUMMARY_SOLVE3": 0, "MODE": mode},
                             cubes=[{"CURVE": c} for c in curves], solver="z3-new", oneshot=True, qworkers=8, qtimeout=nm(tier == "quick", 120, 600), validate_cubes=0,
                             bounds=nm_ + " barrier (both directions); " + B))
+    # Harness_C20_fit / Harness_C20_tryfit2 (FitSpline control flow with curveContained as an arbitrary boolean; two-point base case) are NOT registered:
+    # nlsat leaves the reachability witnesses and the k >= 1 index query undecided (DESIGN.md section 6)
     return dict(obligations=obs)
 
 
